@@ -79,6 +79,26 @@ pub struct Plan {
 /// Deviation bounds per tier and instance size class (DESIGN §10). `size`: 1 = two threads, one
 /// or two calls; 2 = two threads, more calls; 3 = three threads; 4 = four threads / long.
 pub fn plans(tier: Tier, inst: &Inst, have_ship: bool) -> Vec<Plan> {
+    let mut v = plans_m2(tier, inst, have_ship);
+    if std::env::var("VERIF_MODEL").is_err() {
+        // Second verdict model (DESIGN §5): SeqCst accesses without fence strength, as Miri
+        // implements them. Only where stale reads are in the budget (without them every model
+        // is sequential consistency) and the instance is small enough to pay for it twice.
+        let extra: Vec<Plan> = v
+            .iter()
+            .filter(|p| p.cfg.s > 0 && inst.size <= 3 && (p.build == "small" || inst.size <= 2))
+            .map(|p| {
+                let mut q = p.clone();
+                q.cfg.model = rt::Model::M3L;
+                q
+            })
+            .collect();
+        v.extend(extra);
+    }
+    v
+}
+
+fn plans_m2(tier: Tier, inst: &Inst, have_ship: bool) -> Vec<Plan> {
     let model = match std::env::var("VERIF_MODEL").as_deref() {
         Ok("m1") => rt::Model::M1,
         Ok("sc") => rt::Model::Sc,
@@ -259,9 +279,10 @@ pub fn run_prop(instances: &[Inst], o: &PropOpts) -> PropOutcome {
                 }
                 let m = shard::run_sharded(&name, &cfg, &so);
                 eprintln!(
-                    "  {:34} {:5} (p{},s{},f{},k{}) execs={:9} nodes={:9} steps={:11} outcomes={:4} complete={} {:.1}s{}",
+                    "  {:34} {:5} {:3} (p{},s{},f{},k{}) execs={:9} nodes={:9} steps={:11} outcomes={:4} complete={} {:.1}s{}",
                     name,
                     build,
+                    shard::model_name(cfg.model),
                     cfg.p,
                     cfg.s,
                     cfg.f,
